@@ -57,6 +57,13 @@ func Harness_C01_b_partial() {
 	verifCover("end")
 }
 
+func Harness_C01_b_chains() {
+	a, b, c := verifInt("a"), verifInt("b"), verifInt("c")
+	verifAssert(b_arith_chain(a, b, c) == a-b*c-a/2*b+c*3/2-a, "b_arith_chain: * and / bind tighter than + and -, equal ranks group to the left")
+	verifAssert(b_cmp_chain(a, b) == (a+1 == b*2-1), "b_cmp_chain: = is looser than arithmetic")
+	verifCover("end")
+}
+
 func Harness_C01_b_pipes() {
 	a := verifInt("a")
 	verifAssert(b_pipe_chain(a) == ((a+1)*2)+1, "b_pipe_chain: pipes nest left")
